@@ -19,6 +19,7 @@ import (
 	"slices"
 	"strings"
 	"sync"
+	"time"
 
 	"github.com/bronlabs/bron-crypto/pkg/base/curves/curve25519"
 	"github.com/bronlabs/bron-crypto/pkg/base/curves/edwards25519"
@@ -263,15 +264,17 @@ func (w *world) eval(line string) (out evalOut) {
 			out.impl = "api-accepts-raw-rejects"
 		}
 		out.ref = b2s(on)
+		out.triv = !on
+		out.model = []string{"ONC " + m + " " + args[0]}
 		if g.kind == 'm' && xs == "0" {
-			// (0,0) is on the Montgomery curve but has no (u -> y) decompression: one-sided
+			// (0,0) is on the Montgomery curve but FromAffine goes through the u-coordinate
+			// decompression, where u = 0 is the reserved identity encoding (C13): one-sided
+			out.model = nil
 			out.ref = out.impl
 			if raw && !on {
 				out.ref = "0"
 			}
 		}
-		out.triv = !on
-		out.model = []string{"ONC " + m + " " + args[0]}
 	case "MUL", "BASEMUL":
 		var ptxt string
 		if f[0] == "MUL" {
@@ -317,7 +320,7 @@ func (w *world) eval(line string) (out evalOut) {
 		out.impl = g.text(g.lowMul(p, b))
 		out.ref = c.text(c.mul(k, rp))
 		out.model = []string{"MUL " + m + " " + hexZ(k) + " " + vh.Hex(b) + " " + args[1]}
-	case "MSM", "LMSM":
+	case "MSM", "MSMN", "LMSM":
 		var ss []any
 		var raws [][]byte
 		var ps []any
@@ -333,7 +336,7 @@ func (w *world) eval(line string) (out evalOut) {
 			ps = append(ps, p)
 			var k *big.Int
 			var leb []byte
-			if f[0] == "MSM" {
+			if f[0] != "LMSM" {
 				kk, err := parseHex(tf[0])
 				if err != nil {
 					out.skip = err.Error()
@@ -354,7 +357,7 @@ func (w *world) eval(line string) (out evalOut) {
 			acc = c.add(acc, c.mul(k, rp))
 			terms = append(terms, hexZ(k)+";"+vh.Hex(leb)+";"+tf[1])
 		}
-		if f[0] == "MSM" {
+		if f[0] != "LMSM" {
 			if g.msm == nil {
 				out.skip = "no MultiScalarMul"
 				return out
@@ -378,7 +381,11 @@ func (w *world) eval(line string) (out evalOut) {
 			}
 		}
 		out.ref = c.text(acc)
-		out.model = []string{strings.TrimSpace("MSM " + m + " " + strings.Join(terms, " "))}
+		mop := "MSM "
+		if f[0] == "MSMN" {
+			mop = "MSMN "
+		}
+		out.model = []string{strings.TrimSpace(mop + m + " " + strings.Join(terms, " "))}
 	default:
 		out.skip = "unknown op " + f[0]
 	}
@@ -540,6 +547,21 @@ func (w *world) evalSpecial(line string, f []string) (out evalOut) {
 		aP := g1.smul(P, sa).(*bls12381.PointG1)
 		bQ := g2.smul(Q, sb).(*bls12381.PointG2)
 		lhs, err := aP.Pair(bQ)
+		if idA, _ := g1.isID(aP); idA || bQ.IsOpIdentity() {
+			// the pairing API refuses identity operands (documented refusal): "error" is the expected class,
+			// and if it answers it must answer 1
+			out.ref = "error"
+			switch {
+			case err != nil:
+				out.impl = "error"
+			case lhs.IsOne():
+				out.impl = "error"
+			default:
+				out.impl = "identity-operand-not-one"
+			}
+			out.triv = true
+			return out
+		}
 		if err != nil {
 			out.impl = "error"
 			out.ref = "bilinear"
@@ -580,16 +602,18 @@ func (w *world) evalSpecial(line string, f []string) (out evalOut) {
 		idP, _ := g1.isID(P)
 		idQ, _ := g2.isID(Q)
 		switch {
-		case err != nil:
-			out.impl = "error"
 		case idP || idQ:
-			if e.IsOne() {
-				out.impl = "one"
+			// refusal or 1
+			out.ref = "one-or-refused"
+			if err != nil || e.IsOne() {
+				out.impl = "one-or-refused"
 			} else {
 				out.impl = "not-one"
 			}
-			out.ref = "one"
+			out.triv = true
 			return out
+		case err != nil:
+			out.impl = "error"
 		case e.IsOne():
 			out.impl = "degenerate"
 		case !gtPow(e, g1.n).IsOne():
@@ -634,6 +658,11 @@ func agree(line string, impl string, model []string) (bool, string) {
 		}
 		if mf[1] != impl {
 			return false, "implementation " + impl + " != window-algorithm model " + mf[1]
+		}
+		return true, ""
+	case "MSMN":
+		if mo != impl {
+			return false, "implementation " + impl + " != sum k_i*P_i of the affine model " + mo
 		}
 		return true, ""
 	case "MSM", "LMSM":
@@ -710,12 +739,18 @@ func runDriver(path string, lines []string) ([]string, error) {
 func keyOf(line string) string {
 	f := strings.Split(line, " ")
 	op := strings.ToLower(f[0])
+	if f[0] == "F" && len(f) == 4 && f[1] == "g2.p2" && f[2] == "sqrt" && strings.HasSuffix(f[3], ":0") {
+		return "fp2-sqrt-c1-zero"
+	}
 	if f[0] == "F" && len(f) > 2 {
 		return "field-" + f[1] + "-" + f[2]
 	}
 	if len(f) > 1 && f[0] != "PAIR" && f[0] != "PAIRND" && f[0] != "EDMONT" {
 		k := op + "-" + strings.ReplaceAll(f[1], "/", "-")
-		if (f[0] == "MSM" || f[0] == "LMSM") && len(f) == 2 {
+		if f[0] == "MSMN" {
+			k = "msm-" + strings.ReplaceAll(f[1], "/", "-")
+		}
+		if (f[0] == "MSM" || f[0] == "LMSM" || f[0] == "MSMN") && len(f) == 2 {
 			return "msm-empty"
 		}
 		return k
@@ -737,7 +772,7 @@ func whatOf(line string) string {
 		return "correspondence SetAffine = on_curve; theorem set_affine_iff_on_curve"
 	case "MUL", "BASEMUL", "LMUL":
 		return "correspondence ScalarMul = waff_mul and = scalar_mul_window (ScalarMul.v); theorem scalar_mul_window_correct"
-	case "MSM", "LMSM":
+	case "MSM", "LMSM", "MSMN":
 		return "correspondence MultiScalarMul = sum k_i*P_i and = msm (ScalarMul.v); theorem msm_correct"
 	case "F":
 		return "correspondence field operation = Zp / Fp2 (Fld.v, Curve.v)"
@@ -752,6 +787,7 @@ func whatOf(line string) string {
 // runCases evaluates the cases, applies R and records mismatches.  Returns the number of mismatches.
 func runCases(w *world, a vh.Args, res *vh.Result, lines []string, tag string) int {
 	evs := make([]evalOut, len(lines))
+	t0 := time.Now()
 	var wg sync.WaitGroup
 	sem := make(chan struct{}, runtime.NumCPU())
 	for i := range lines {
@@ -764,13 +800,19 @@ func runCases(w *world, a vh.Args, res *vh.Result, lines []string, tag string) i
 		}(i)
 	}
 	wg.Wait()
+	tImpl := time.Since(t0)
 	var mlines []string
 	idx := make([]int, len(lines))
 	for i, e := range evs {
 		idx[i] = len(mlines)
 		mlines = append(mlines, e.model...)
 	}
+	t1 := time.Now()
 	mouts, err := runDriver(a.Driver, mlines)
+	fmt.Fprintf(os.Stderr, "c14 %s: implementation+reference %.1fs, model driver %.1fs (%d lines)\n", tag, tImpl.Seconds(), time.Since(t1).Seconds(), len(mlines))
+	if os.Getenv("C14_DUMP") != "" {
+		_ = os.WriteFile(os.Getenv("C14_DUMP"), []byte(strings.Join(mlines, "\n")+"\n"), 0o644)
+	}
 	if err != nil {
 		res.Mismatch(vh.Mismatch{ID: tag + "-driver", Kind: "corr", Key: "driver-failed", Detail: err.Error(), Case: "(driver)", What: "model driver"})
 		return 1
